@@ -426,7 +426,11 @@ def replay(pid, path, quiet=False):
 # the main search loop
 
 
-def run_check(pid, tier="quick", seed=0, workers=None, budget=None, batches=None):
+def run_check(pid, tier="quick", seed=0, workers=None, budget=None, batches=None, evidence=True):
+    # evidence/<id>.json describes runs against /repo's working tree only: never written when the code under test
+    # comes from a scratch worktree (VERIF_REPO_SRC: reverted fixes, seeded changes) or when the caller says so
+    if os.environ.get("VERIF_REPO_SRC"):
+        evidence = False
     mod = load(pid)
     cfg = dict(getattr(mod, "QUICK" if tier == "quick" else "THOROUGH"))
     if tier == "quick":
@@ -563,7 +567,8 @@ def run_check(pid, tier="quick", seed=0, workers=None, budget=None, batches=None
         lines.append(f"  class={vv['cls']} detail={vv['detail'][:300]}")
 
     wall = _perf() - t0
-    write_evidence(mod, pid, tier, seed, agg, wall, wall_search, violations_reported, workers)
+    if evidence:
+        write_evidence(mod, pid, tier, seed, agg, wall, wall_search, violations_reported, workers)
     for ln in lines:
         print(ln)
     nerr = len(agg["harness_errors"])
